@@ -440,7 +440,13 @@ impl Model {
                             _ => ("C03", "C03:conservation"),
                         };
                         let d = format!("after {}: {} has (outstanding, backlog) = ({}, {}), model says ({}, {})", after, short(&n), st.outstanding, st.backlog, want.0, want.1);
-                        self.flag(p, sig, d);
+                        if after == "AckModify" {
+                            // one control message carried acks and modifications: either half may be at fault
+                            self.flag("C02", "C02:ack-changed-other-state", d.clone());
+                            self.flag("C05", "C05:modify-changed-other-state", d);
+                        } else {
+                            self.flag(p, sig, d);
+                        }
                     }
                     let want_topic = if s.topic_deleted { "projects//topics/_deleted_topic_".to_string() } else { s.topic.clone() };
                     if st.topic != want_topic {
